@@ -25,6 +25,8 @@ type C15Case struct {
 	AppHandler string `json:"app_handler"` // the application's own EventLogout handler: none | true | false (its return value)
 	EndStep    int    `json:"end_step"`    // index of the peer Logout / local Logout / Stop step
 	AnswerStep int    `json:"answer_step"` // index of the peer's answering Logout (-1: none)
+	RefuseLogout bool `json:"refuse_logout,omitempty"` // stop ending: an application outgoing handler refuses the Logout, so it never reaches the peer; the deadline still ends the session
+	CounterFails bool `json:"counter_fails,omitempty"` // peer-logout ending: the counter store fails from just before the peer's Logout on; the Logout is answered all the same
 	Probed     bool   `json:"probed"`      // local endings: the peer has been silent long enough for the session to have sent its TestRequest; the local Logout()/Stop() comes while that is unanswered
 }
 
@@ -76,6 +78,10 @@ func genC15(t *rapid.T) *C15Case {
 			add(rig.Step{Op: "advance", Dt: T + T/10 + 1e6})
 			c.AnswerKind = "after-probe"
 		}
+		if c.AnswerKind == "" && rapid.IntRange(0, 3).Draw(t, "counterFails") == 0 {
+			c.CounterFails = true
+			add(rig.Step{Op: "counter-fails"})
+		}
 		c.EndStep = add(rig.Step{Op: "in", In: g.logout()})
 	case "local-logout":
 		probeFirst()
@@ -109,6 +115,9 @@ func genC15(t *rapid.T) *C15Case {
 			kinds = []string{"never", "after"} // no room strictly before the deadline
 		}
 		c.AnswerKind = rapid.SampledFrom(kinds).Draw(t, "answerKind")
+		if c.AnswerKind == "never" && rapid.Bool().Draw(t, "refuseLogout") {
+			c.RefuseLogout = true
+		}
 		var off time.Duration
 		switch c.AnswerKind {
 		case "immediately":
@@ -163,6 +172,11 @@ func checkC15(c *C15Case, rec *evid.Rec) (vs []pbt.Violation) {
 			s.OnChangeState(utils.EventLogout, func() bool { return ret })
 		}
 	}
+	if c.RefuseLogout {
+		hooks.BeforeRun = func(h *simplefixgo.DefaultHandler, log *rig.EventLog) {
+			h.HandleOutgoing(rig.TLogout, func(simplefixgo.SendingMessage) bool { return false })
+		}
+	}
 	if c.AnswerKind == "reactive" {
 		answered := false
 		hooks.OnWire = func(o rig.Out) []*rig.InMsg {
@@ -209,7 +223,7 @@ func checkC15(c *C15Case, rec *evid.Rec) (vs []pbt.Violation) {
 			vs = append(vs, pbt.V("still-logged-after-logout", "IsLogged is true after the logout exchange"))
 		}
 	case "stop":
-		if n := logouts(end.Out); n != 1 {
+		if n := logouts(end.Out); n != 1 && !c.RefuseLogout {
 			vs = append(vs, pbt.V("stop-logout-not-sent", "Stop() must send exactly one Logout, emitted:%s", showOut(end)))
 		}
 		deadline := end.At + timeout
@@ -260,6 +274,12 @@ func checkC15(c *C15Case, rec *evid.Rec) (vs []pbt.Violation) {
 	rec.Hist("role:" + c.Cfg.Role)
 	if c.Probed {
 		rec.Hist("local-ending-while-own-testrequest-unanswered:" + c.Ending)
+	}
+	if c.RefuseLogout {
+		rec.Hist("stop-whose-logout-is-refused")
+	}
+	if c.CounterFails {
+		rec.Hist("peer-logout-while-counter-store-fails")
 	}
 	if rec.WantSample() && nontrivial {
 		rec.Sample(map[string]any{"ending": c.Ending, "answer": c.AnswerKind, "history": showScript(&c.Script)})
